@@ -92,6 +92,14 @@ func c15Requests(a *vref.VAsset, asset string) []string {
 			tname := vref.ExpandURL(strings.ReplaceAll(r.MediaTmpl, "$Number$", "$Time$"), r.ID, r.Bandwidth, 0, tm)
 			out = append(out, fmt.Sprintf("/livesim2/segtimeline_1/%s/%s?nowMS=%d", asset, tname, now))
 		}
+		// data that is not stored in the cache files but rebuilt at every start: the encryption data
+		if (r.Kind == "video" || r.Kind == "audio") && r.InitURI != "" {
+			for _, d := range []string{"eccp_cbcs", "eccp_cenc"} {
+				out = append(out, fmt.Sprintf("/livesim2/%s/%s/%s?nowMS=%d", d, asset, r.InitURI, now))
+				name := vref.ExpandURL(strings.ReplaceAll(r.MediaTmpl, "$Time$", "$Number$"), r.ID, r.Bandwidth, base, 0)
+				out = append(out, fmt.Sprintf("/livesim2/%s/%s/%s?nowMS=%d", d, asset, name, now))
+			}
+		}
 	}
 	return out
 }
@@ -128,6 +136,10 @@ func TestVerifC15(t *testing.T) {
 	if g := vGenRoot(); g != "" {
 		for _, n := range []string{"g_3x1500ms", "g_irregular_time", "g_single_snr5", "g_audio_one_seg", "g_trex_vs_tfhd"} {
 			layouts = append(layouts, layout{filepath.Join(g, n), n})
+		}
+		if x := vGenExtraRoot(); x != "" {
+			// a segment boundary that the sample durations and the next tfdt disagree about, before the last segment
+			layouts = append(layouts, layout{filepath.Join(x, "x_shift_last_boundary"), "x_shift_last_boundary"})
 		}
 	}
 	job := 0
